@@ -238,7 +238,7 @@ CHECKS = {
         level_note="trusted: the queue model; client and server share one thread, so races inside a single ring operation are C01's subject, and blocking variants of the calls are not exercised here",
         stages=[rnd("msgs", "c02", 40000, 1500000, essential=["refused_then_retried", "two_in_flight", "deferred_notification", "size_at_limit", "size_beyond_limit", "fc_toggled_midburst", "shm", "socket",
                                                                 "event_readable_checked", "response_from_callback", "response_from_outside", "three_clients", "ring_full_refusal", "sendv",
-                                                                "client_send_blocked_then_rescued", "receive_buffer_too_small"])],
+                                                                "client_send_blocked_then_rescued", "receive_buffer_too_small", "events_drained_under_flow_control"])],
         assumptions=["at most 48 requests of one client are outstanding; the state in which the client blocks on a full client-to-server notification socket is reached by shrinking that socket's buffers, and a helper thread then runs server steps (only while the main thread is stuck inside the send), lifting flow control after 20 ms",
                      "readability of the event descriptor is demanded only when the server's dispatcher has nothing left to do (deferred notifications are re-sent from the server's loop)"],
     ),
